@@ -1,0 +1,182 @@
+//go:build verif
+
+package bttest
+
+// Contracts for contract-based deductive verification (checked by /verif/govc).
+// This file contains comments only and is compiled only with the build tag "verif".
+
+// ---------------------------------------------------------------------------------------------
+// Type invariants of wire-decoded request messages (protobuf-go never produces a oneof wrapper
+// with a nil message, nor nil elements in repeated message fields). The emulator never writes
+// these fields; a store to one of them becomes an obligation.
+// ---------------------------------------------------------------------------------------------
+
+//@ typeinv nonnil btpb.RowFilter_Chain_.Chain
+//@ typeinv nonnil btpb.RowFilter_Interleave_.Interleave
+//@ typeinv nonnil btpb.RowFilter_Condition_.Condition
+//@ typeinv nonnil btpb.RowFilter_ColumnRangeFilter.ColumnRangeFilter
+//@ typeinv nonnil btpb.RowFilter_TimestampRangeFilter.TimestampRangeFilter
+//@ typeinv nonnil btpb.RowFilter_ValueRangeFilter.ValueRangeFilter
+//@ typeinv elems_nonnil btpb.RowFilter_Chain.Filters
+//@ typeinv elems_nonnil btpb.RowFilter_Interleave.Filters
+//@ typeinv nonnil btpb.Mutation_SetCell_.SetCell
+//@ typeinv nonnil btpb.Mutation_DeleteFromColumn_.DeleteFromColumn
+//@ typeinv nonnil btpb.Mutation_DeleteFromFamily_.DeleteFromFamily
+//@ typeinv nonnil btpb.Mutation_DeleteFromRow_.DeleteFromRow
+//@ typeinv elems_nonnil btpb.MutateRowRequest.Mutations
+//@ typeinv elems_nonnil btpb.MutateRowsRequest.Entries
+//@ typeinv elems_nonnil btpb.MutateRowsRequest_Entry.Mutations
+//@ typeinv elems_nonnil btpb.CheckAndMutateRowRequest.TrueMutations
+//@ typeinv elems_nonnil btpb.CheckAndMutateRowRequest.FalseMutations
+//@ typeinv elems_nonnil btpb.ReadModifyWriteRowRequest.Rules
+//@ typeinv elems_nonnil btpb.RowSet.RowRanges
+//@ typeinv elems_nonnil btapb.ModifyColumnFamiliesRequest.Modifications
+//@ typeinv nonnil btapb.GcRule_Union_.Union
+//@ typeinv elems_nonnil btapb.GcRule_Union.Rules
+//@ typeinv nonnil btapb.GcRule_MaxAge.MaxAge
+//@ typeinv mapvals_nonnil btapb.Table.ColumnFamilies
+//@ typeinv mapvals_nonnil server.tables
+//@ typeinv nonnil table.def
+//@ typeinv nonnil table.rows
+
+// ---------------------------------------------------------------------------------------------
+// Row structure predicates
+// ---------------------------------------------------------------------------------------------
+
+//@ spec cellsOK(cs []*btpb.Cell) bool = forall k :: 0 <= k < len(cs) ==> cs[k] != nil
+//@ spec colOK(c *btpb.Column) bool = c != nil && cellsOK(c.Cells)
+//@ spec colsOK(cs []*btpb.Column) bool = forall j :: 0 <= j < len(cs) ==> colOK(cs[j])
+//@ spec famOK(f *btpb.Family) bool = f != nil && colsOK(f.Columns)
+//@ spec famsOK(fs []*btpb.Family) bool = forall i :: 0 <= i < len(fs) ==> famOK(fs[i])
+//@ spec rowOK(r *btpb.Row) bool = r != nil && famsOK(r.Families)
+//@ spec descTS(cs []*btpb.Cell) bool = forall a, b :: 0 <= a < b < len(cs) ==> cs[a].TimestampMicros > cs[b].TimestampMicros
+
+// ---------------------------------------------------------------------------------------------
+// Leaf helpers
+// ---------------------------------------------------------------------------------------------
+
+//@ func (t *table) validTimestamp
+//@   property C01 C13
+//@   pure
+//@   ensures result == (0 <= ts && ts <= 9223372036854775000 && ts % 1000 == 0)
+
+//@ func maxTimestamp
+//@   property C13
+//@   pure
+//@   ensures result == (x > y ? x : y)
+
+//@ func keysOutOfRange
+//@   property C03
+//@   pure
+//@   ensures result == (len(start) != 0 && len(end) != 0 && bytesLess(end, start))
+
+//@ func getFamily
+//@   property C01 C05 C12 C13
+//@   requires r != nil
+//@   requires forall i :: 0 <= i < len(r.Families) ==> r.Families[i] != nil
+//@   ensures result != nil ==> result.Name == name
+//@   ensures result != nil ==> exists i :: 0 <= i < len(r.Families) && r.Families[i] == result
+//@   ensures result == nil ==> forall i :: 0 <= i < len(r.Families) ==> r.Families[i].Name != name
+//@   loop 1 invariant forall i :: 0 <= i <= idx1 ==> r.Families[i].Name != name
+
+//@ func getColumn
+//@   property C01 C05 C13
+//@   requires fam != nil
+//@   requires forall i :: 0 <= i < len(fam.Columns) ==> fam.Columns[i] != nil
+//@   ensures result != nil ==> bytesEq(result.Qualifier, name)
+//@   ensures result != nil ==> exists i :: 0 <= i < len(fam.Columns) && fam.Columns[i] == result
+//@   ensures result == nil ==> forall i :: 0 <= i < len(fam.Columns) ==> !bytesEq(fam.Columns[i].Qualifier, name)
+//@   loop 1 invariant forall i :: 0 <= i <= idx1 ==> !bytesEq(fam.Columns[i].Qualifier, name)
+
+//@ func isEmpty
+//@   property C12
+//@   requires rowOK(r)
+//@   ensures result == (forall i, j :: 0 <= i < len(r.Families) && 0 <= j < len(r.Families[i].Columns) ==> len(r.Families[i].Columns[j].Cells) == 0)
+//@   loop 1 invariant forall i, j :: 0 <= i <= idx1 && 0 <= j < len(r.Families[i].Columns) ==> len(r.Families[i].Columns[j].Cells) == 0
+//@   loop 2 invariant forall i, j :: 0 <= i <= idx1 && 0 <= j < len(r.Families[i].Columns) ==> len(r.Families[i].Columns[j].Cells) == 0
+//@   loop 2 invariant forall j :: 0 <= j <= idx2 ==> len(fam.Columns[j].Cells) == 0
+//@   loop 2 invariant 0 <= idx1 + 1 < len(r.Families) && fam == r.Families[idx1 + 1]
+
+//@ func rowsize
+//@   property C03
+//@   requires rowOK(r)
+//@   ensures result >= 0
+//@   loop 1 invariant size >= 0
+//@   loop 2 invariant size >= 0
+//@   loop 3 invariant size >= 0
+
+//@ func (b byDescTS) Len
+//@   property C01 C05
+//@   pure
+//@   ensures result == len(b)
+
+//@ func (b byDescTS) Less
+//@   property C01 C05
+//@   requires 0 <= i < len(b) && 0 <= j < len(b)
+//@   requires cellsOK(b)
+//@   ensures result == (b[i].TimestampMicros > b[j].TimestampMicros)
+
+//@ func (b byDescTS) Swap
+//@   property C01 C05
+//@   requires 0 <= i < len(b) && 0 <= j < len(b)
+//@   modifies elems(b)
+//@   ensures b[i] == old(b[j]) && b[j] == old(b[i])
+//@   ensures forall k :: 0 <= k < len(b) && k != i && k != j ==> b[k] == old(b[k])
+
+// ---------------------------------------------------------------------------------------------
+// Row construction helpers
+// ---------------------------------------------------------------------------------------------
+
+//@ func getOrCreateFamily
+//@   property C01 C05 C13
+//@   requires rowOK(r)
+//@   modifies r.Families, elems(r.Families)
+//@   ensures rowOK(r)
+//@   ensures result != nil && result.Name == name && colsOK(result.Columns)
+//@   ensures exists i :: 0 <= i < len(r.Families) && r.Families[i] == result
+//@   ensures forall i :: 0 <= i < old(len(r.Families)) ==> r.Families[i] == old(r.Families[i])
+//@   ensures len(r.Families) == old(len(r.Families)) || (len(r.Families) == old(len(r.Families)) + 1 && fresh(result) && len(result.Columns) == 0 && r.Families[old(len(r.Families))] == result)
+
+//@ func getOrCreateColumn
+//@   property C01 C05 C13
+//@   requires famOK(fam)
+//@   modifies fam.Columns, elems(fam.Columns)
+//@   ensures famOK(fam)
+//@   ensures result != nil && bytesEq(result.Qualifier, name) && cellsOK(result.Cells)
+//@   ensures exists i :: 0 <= i < len(fam.Columns) && fam.Columns[i] == result
+//@   ensures forall i :: 0 <= i < old(len(fam.Columns)) ==> fam.Columns[i] == old(fam.Columns[i])
+//@   ensures len(fam.Columns) == old(len(fam.Columns)) || (len(fam.Columns) == old(len(fam.Columns)) + 1 && fresh(result) && len(result.Cells) == 0 && fam.Columns[old(len(fam.Columns))] == result)
+
+//@ func copyRow
+//@   property C05 C12
+//@   requires rowOK(r)
+//@   ensures rowOK(result) && fresh(result)
+//@   ensures len(result.Families) == len(r.Families)
+//@   loop 1 invariant frameOld(heap("F:bigtablepb.Row.Families"), heap("T:*bigtablepb.Family"), heap("F:bigtablepb.Family.Columns"), heap("F:bigtablepb.Family.Name"), heap("T:*bigtablepb.Column"), heap("F:bigtablepb.Column.Cells"), heap("F:bigtablepb.Column.Qualifier"), heap("T:*bigtablepb.Cell"))
+//@   loop 1 invariant nr != nil && fresh(nr) && famsOK(nr.Families) && len(nr.Families) == idx1 + 1
+//@   loop 1 invariant cap(nr.Families) == 0 || fresh(nr.Families)
+//@   loop 2 invariant frameOld(heap("F:bigtablepb.Row.Families"), heap("T:*bigtablepb.Family"), heap("F:bigtablepb.Family.Columns"), heap("F:bigtablepb.Family.Name"), heap("T:*bigtablepb.Column"), heap("F:bigtablepb.Column.Cells"), heap("F:bigtablepb.Column.Qualifier"), heap("T:*bigtablepb.Cell"))
+//@   loop 2 invariant nr != nil && fresh(nr) && famsOK(nr.Families) && len(nr.Families) == idx1 + 1
+//@   loop 2 invariant cap(nr.Families) == 0 || fresh(nr.Families)
+//@   loop 2 invariant f != nil && fresh(f) && colsOK(f.Columns) && (cap(f.Columns) == 0 || fresh(f.Columns))
+//@   loop 2 invariant 0 <= idx1 + 1 < len(r.Families) && fam == r.Families[idx1 + 1]
+
+//@ func newTable
+//@   property C14
+//@   requires tbl != nil
+//@   modifies tbl.ColumnFamilies
+//@   ensures result != nil && fresh(result) && result.def == tbl && result.rows == rows && tbl.ColumnFamilies != nil
+
+//@ func (t *table) cols
+//@   inline
+
+//@ func (t *table) getOrCreateRow
+//@   property C01 C06
+//@   requires t.rows != nil
+//@   ensures rowOK(result) && fresh(result)
+
+//@ func modifyCell
+//@   property C05
+//@   requires c != nil
+//@   ensures result0 != nil
+//@   ensures result1 == nil ==> (result0 == c || fresh(result0))
